@@ -13,6 +13,17 @@ PROOF_NOTE = ("Trusted: Lean 4.33 kernel + axioms propext/Classical.choice/Quot.
               "tables/constants (Strophe/Gen). ")
 
 CLAIMED = {
+    "C10": dict(
+        engine="xml", design="5.10",
+        technique="Lean 4 refinement + invariant theorems over arbitrary expat callback traces with expat as a parameter under the named hypothesis H-expat; recorded-parameter replay against the real parser; ElementTree oracle",
+        text=("chars_split_invariant / text_whole (text split across callbacks is delivered whole and in order), chunk_invariant and "
+              "chunk_invariant_restarts (given H-expat, delivery does not depend on the partition of the byte stream, with restarts "
+              "at any point), reset_clean_slate, assembly_safe / buffer_safe / assembly_invariant (no NULL dereference, no "
+              "uninitialised read, bookkeeping invariant in every reachable state), ns_split_correct. The model is the layer of "
+              "parser_expat.c above expat; expat's callback trace is recorded from a second parser instance fed with the same "
+              "bytes and replayed into the model; every partition is also compared with the one-read delivery and, for "
+              "well-formed input, with Python ElementTree."),
+        note=PROOF_NOTE + "PARTIAL: expat's tokenisation is not modelled; H-expat (callback traces of two chunkings agree up to character-data splitting, with the documented error-tail allowance) is a hypothesis of chunk_invariant and is checked on the recorded traces of every run."),
     "C09": dict(
         engine="stz", design="5.9",
         technique="Lean 4 theorems (escape/unescape, parse(render t) = canon t for every well-formed tree against an independent XML reader spec, exact to_text for every buffer size, copy/reply structure) over a byte-exact model of stanza.c + hash.c + differential correspondence with three independent readers",
